@@ -29,35 +29,47 @@ def check(c):
     seed = c.get('seed', 0)
     shape, rho, m = c['shape'], c['rho'], c['m']
     d = len(shape)
-    cores = space.tt(shape, [1] + [rho] * (d - 1) + [1], c['pat'], seed, tag=81)
-    T = ref.dense(cores)
-    nT = float(np.linalg.norm(T))
+    cores = space.tt(shape, [1] + [rho] * (d - 1) + [1], c['pat'] if c['pat'] != 'stab' else 'gen', seed, tag=81)
+    if c['pat'] == 'stab':          # identity slices plus a perturbation: interface vectors stay O(1) along very long trains
+        cores = [0.3 * G + np.eye(G.shape[0], G.shape[2])[:, None, :] for G in cores]
+    long_ = bool(c.get('long'))
+    T = None if long_ else ref.dense(cores)
+    nT = float(np.sqrt(ref.tt_dot(cores, cores))) if long_ else float(np.linalg.norm(T))
     tags = ['pat=' + c['pat']]
     for gs in c['gseeds']:
         with warnings.catch_warnings():
             warnings.simplefilter('ignore')
-            I, idx, idx_many = teneva.sample_tt(shape, m, seed=gs)
-        y = T[tuple(I.T)]
+            sd = np.random.default_rng(int(gs[4:])) if isinstance(gs, str) else gs       # 'gen:<k>' = a Generator object as seed
+            I, idx, idx_many = teneva.sample_tt(shape, m, seed=sd)
+        y = ref.tt_entries(cores, I) if long_ else T[tuple(I.T)]
         # conditioning guard on the true interfaces at the sampled prefixes / suffixes
         ok = nT > 0
         for k in range(d):
             blk = I[idx[k]:idx[k + 1]]
             len2 = idx_many[k]
             len1 = len(blk) // (shape[k] * len2)
+            # the structured sample set for expected rank m has m prefixes (k > 0) and m suffixes (k < d-1): a thinner set is not
+            # an "ill-conditioned" input to be excused, it is a sample set that does not have the advertised layout
+            lay_ok = (len1 == (m if k > 0 else 1)) and (len2 == (m if k < d - 1 else 1))
+            if not lay_ok:
+                res.fail('samples.layout', dict(c, gseeds=[gs], mode=k), 'mode %d: %d prefixes / %d suffixes for expected rank m=%d' % (k, len1, len2, m),
+                         tags + ['layout'])
+                ok = False
+                break
             if k > 0:
                 pre = blk[:len1 * len2:len2, :k]
                 L = np.array([_left(cores, p) for p in pre])
                 s = np.linalg.svd(L, compute_uv=False)
-                ok = ok and len(s) >= rho and L.shape[0] >= rho and s[rho - 1] >= 1e-4 * s[0] and s[rho - 1] > 1e-6 and np.linalg.matrix_rank(L) == min(L.shape[1], rho)
+                ok = ok and len(s) >= rho and L.shape[0] >= rho and s[rho - 1] >= 1e-4 * s[0] and s[rho - 1] > (1e-6 if not long_ else 1e-200) and np.linalg.matrix_rank(L) == min(L.shape[1], rho)
                 ok = ok and len({tuple(p) for p in pre}) == len(pre)
             if k < d - 1:
                 suf = blk[:len2, k + 1:]
                 R = np.array([_right(cores, q, k + 1) for q in suf])
                 s = np.linalg.svd(R, compute_uv=False)
-                ok = ok and R.shape[0] >= rho and len(s) >= rho and s[rho - 1] >= 1e-4 * s[0] and s[rho - 1] > 1e-6
+                ok = ok and R.shape[0] >= rho and len(s) >= rho and s[rho - 1] >= 1e-4 * s[0] and s[rho - 1] > (1e-6 if not long_ else 1e-200)
                 ok = ok and len({tuple(q) for q in suf}) == len(suf)
         # true TT-ranks must be rho (otherwise the generating cores are not minimal)
-        for k in range(1, d):
+        for k in range(1, d if not long_ else 1):
             sv = ref.unfold_sv(T, k)
             ok = ok and len(sv) >= rho and sv[rho - 1] > 1e-4 * sv[0] and (len(sv) == rho or sv[rho] < 1e-10 * sv[0])
         for cap in c['caps']:
@@ -82,7 +94,10 @@ def check(c):
                 res.skip('ill-conditioned sample set / non-minimal target')
                 continue
             if capi >= rho:
-                err = float(np.linalg.norm(ref.dense(Z) - T)) / nT
+                if long_:
+                    err = ref.tt_norm_diff(Z, cores) / nT
+                else:
+                    err = float(np.linalg.norm(ref.dense(Z) - T)) / nT
                 res.check(err <= 1e-8, 'recover', case,
                           lambda: 'relative error %.3e (ranks %s, rho=%d, m=%d, cap=%s)' % (err, rk, rho, m, cap), tags + ['recover'])
                 res.nt((shape, rho, m, cap, gs, c['pat']))
@@ -124,5 +139,13 @@ def strata(tier, seed):
                     for pat in ('gen', 'intA'):
                         cs.append(dict(shape=sh, rho=rho, m=m, pat=pat, caps=[rho, rho + 1, 1e12] + ([max(1, rho - 1)] if rho > 1 else []),
                                        gseeds=[0, 1, 2, 3, 4] if tier != 'quick' else [0, 1, 2], seed=seed))
+    # a Generator object as seed; modes large enough that n_k * m exceeds 255; trains so long that a product of mode sizes
+    # exceeds 2^63 (no dense tensor exists: the comparison runs through TT inner products)
+    for sh, rho, m in (([4, 5, 6], 2, 3), ([5, 5], 2, 2), ([3, 4, 3, 4], 2, 2)):
+        cs.append(dict(shape=sh, rho=rho, m=m, pat='gen', caps=[rho, 1e12], gseeds=['gen:5', 'gen:6'], seed=seed))
+    for sh, rho, m in (([40, 50, 60], 2, 5), ([64, 64], 3, 4), ([12, 100], 2, 3), ([300, 7], 2, 2)):
+        cs.append(dict(shape=sh, rho=rho, m=m, pat='gen', caps=[1e12], gseeds=[0], seed=seed))
+    for n, dd in ((4, 34), (10, 21), (2, 70)):
+        cs.append(dict(shape=[n] * dd, rho=2, m=2, pat='stab', caps=[2, 1e12], gseeds=[0, 1, 2], seed=seed, long=True))
     yield Stratum('configurations', cs, 'config', size=len(cs), chunk=4,
                   bounds={'d': [2, 4], 'rho': [1, 3], 'm': 'rho..rho+2', 'n': 'm..m+2'})
